@@ -22,11 +22,15 @@ MANIFEST = {
     "technique": "Lean 4 proof (prefix-parser law, induction over layouts, decide +kernel over the generated layout table) + differential "
                  "correspondence model vs implementation + independent wire encoder",
 }
-RULE = ("ops msg_rt <name> <fields> (pack then parse) and msg_parse <name> <bytes>; type-directed values per reference layout: boundary "
+RULE = ("ops msg_rt <name> <fields> (pack then parse), msg_parse <name> <bytes> and msg_hist (a sequence of pack/parse calls over "
+        "btc/ltc/btg/bch/grs/doge/xtg run in a fresh interpreter state, every ordered pair of networks x every message with an embedded "
+        "tx/block/header, each step compared with the same call alone in a fresh state); type-directed values per reference layout: boundary "
         "integers, empty/1/252/253/300-element arrays, IPv4-mapped and IPv6 addresses, optional field present/absent, embedded "
         "txs/blocks/headers; malformed stream = truncations and bit flips of valid encodings; distinct = distinct op line; "
         "trivial = messages without fields")
-ASSUMPTIONS = ["the reference layout table in harness/msglib.py is written from the protocol documentation with pycoin's field names",
+ASSUMPTIONS = ["process histories (msg_hist) are run by forking a worker that has imported the networks but never packed or parsed; "
+               "networks covered: btc, ltc, btg, bch, grs, doge, xtg (every distinct Tx/Block class of the registry)",
+               "the reference layout table in harness/msglib.py is written from the protocol documentation with pycoin's field names",
                "merkleblock round trip is claimed for field values that form a valid partial merkle tree (the post-processor validates)",
                "malformed-stream inputs whose [hash] array count exceeds what the data can hold by more than 5000 are excluded "
                "(f.read(32) succeeds on an exhausted stream, so the parser loops `count` times); impl calls are time-limited (3 s)"]
@@ -73,6 +77,12 @@ def impl(op: str) -> str:
             except Exception as e:  # noqa: BLE001
                 return "err parse %s %s" % (_cls(e), data.hex() or "-")
             return "ok %s %s" % (data.hex() or "-", dump_dict(d, [kk for kk, _ in fields]))
+        if k == "msg_hist":
+            steps = a[1].split("|")
+            out = M.zygote().run(steps)
+            if out == ["HANG"]:
+                return "err Hang"
+            return "ok " + "|".join(out)
         if k == "msg_parse":
             name, data = a[1], (b"" if a[2] == "-" else bytes.fromhex(a[2]))
             try:
@@ -92,8 +102,37 @@ def _strip_extra(dump: str) -> str:
     return ";".join(p for p in dump.split(";") if not p.startswith("+")) or "~"
 
 
+def hist_oracle(steps, out: str):
+    """every step's answer must be the answer the same call gives in a process that has done nothing before, and a pack of
+    in-type values must be the wire encoding"""
+    if not out.startswith("ok "):
+        return "history did not finish: " + out
+    answers = out[3:].split("|")
+    if len(answers) != len(steps):
+        return "history: %d answers for %d steps" % (len(answers), len(steps))
+    for i, (st, ans) in enumerate(zip(steps, answers)):
+        alone = M.zygote().run([st])
+        if alone != [ans]:
+            net, kind, name, _ = st.split(":")
+            return ("step %d (%s.message.%s %s) answers differently after %s than in a fresh process: the result depends on what "
+                    "other networks did before" % (i, net, kind, name, ",".join(":".join(x.split(":")[:3]) for x in steps[:i]) or "nothing"))
+        net, kind, name, arg = st.split(":")
+        if kind == "pack" and name in REF:
+            fields = parse_fields(arg)
+            if [k for k, _ in fields] == [k for k, _ in REF[name]]:
+                try:
+                    want = ref_pack(REF[name], fields)
+                except OutOfType:
+                    continue
+                if ans != (want.hex() or "-"):
+                    return "step %d (%s pack %s): packed bytes differ from the wire encoding" % (i, net, name)
+    return None
+
+
 def oracle(op: str, out: str):
     a = op.split(" ")
+    if a[0] == "msg_hist":
+        return hist_oracle(a[1].split("|"), out)
     if a[0] != "msg_rt":
         return None
     name, fields = a[1], parse_fields(a[2])
@@ -214,8 +253,66 @@ def honest_merkleblock(rng, n=None):
     return [("header", ("h", hdr)), ("total_transactions", n), ("hashes", hashes), ("flags", list(flags))]
 
 
+EMBED_MSGS = ["tx", "block", "headers", "merkleblock", "cmpctblock", "blocktxn"]
+
+
+def net_value(rng, code, t):
+    """a value of reference type `t` in the wire layout of network `code`"""
+    if t == "header":
+        return ("h", M.net_header(rng, code, rng.randbytes(32)))
+    if t == "block":
+        return ("b", M.net_block(rng, code, rng.choice([1, 2, 3]))[0])
+    return gen_scalar(rng, t)
+
+
+def net_fields(rng, code, name):
+    if name == "merkleblock":
+        from props import c14
+        n = rng.choice([1, 2, 3, 5, 8])
+        txids = [rng.randbytes(32) for _ in range(n)]
+        ms = [rng.random() < 0.5 for _ in range(n)]
+        flags, hashes, _i, _n = c14.ref_build(txids, ms)
+        return [("header", ("h", M.net_header(rng, code, c14.ref_root(txids)))), ("total_transactions", n), ("hashes", hashes),
+                ("flags", list(flags))]
+    out = []
+    for k, t in REF[name]:
+        if isinstance(t, list):
+            cnt = rng.choice([1, 2])
+            out.append((k, [net_value(rng, code, t[0]) if len(t) == 1 else tup(*[net_value(rng, code, x) for x in t]) for _ in range(cnt)]))
+        else:
+            out.append((k, net_value(rng, code, t)))
+    return out
+
+
+def hist_steps(rng, code, name):
+    """pack the values, and parse their reference encoding, on network `code`"""
+    f = net_fields(rng, code, name)
+    return ["%s:pack:%s:%s" % (code, name, show_fields(f)), "%s:parse:%s:%s" % (code, name, ref_pack(REF[name], f).hex() or "-")]
+
+
+def gen_histories(ctx, emit):
+    rng = ctx.rng
+    nets = [n for n in M.HIST_NETS if n in M.zygote().nets]
+    # every ordered pair of networks x every message with an embedded tx / block / header: A first then B
+    for name in EMBED_MSGS:
+        for a in nets:
+            for b in nets:
+                if a != b:
+                    sa, sb = hist_steps(rng, a, name), hist_steps(rng, b, name)
+                    emit("msg_hist " + "|".join([sa[1], sb[1], sb[0], sa[0]]))
+    # longer random interleavings over all networks and all messages
+    for _ in range(ctx.n(60, 3000)):
+        steps = []
+        for _s in range(rng.randint(3, 8)):
+            code = rng.choice(nets)
+            name = rng.choice(EMBED_MSGS + EMBED_MSGS + ["version", "inv", "getblocks", "addr", "ping"])
+            steps.append(rng.choice(hist_steps(rng, code, name)))
+        emit("msg_hist " + "|".join(steps))
+
+
 def gen(ctx, emit):
     rng = ctx.rng
+    gen_histories(ctx, emit)
     live = standard_messages()
     if sorted(live) != NAMES:
         # a message type added or removed: the reference table has to follow (reported, not a violation by itself)
